@@ -1,5 +1,5 @@
 (* C17 - served evaluations reach the right requester under any arrival schedule.
- Property theorems only; proofs are in proofs/ServerProofs.v.
+ Property theorems only; proofs are in proofs/ServerProofs.v and proofs/ServerProgress.v.
 
  PARTIAL by design: the theorems quantify over ALL event sequences (arrivals,
  gather-timeout expiries and model completions in any order and at any times)
@@ -8,10 +8,11 @@
  that goes away while queued, a timeout that expires in the same loop
  iteration as an arrival) are runtime behaviour outside the model; the
  network enters as an abstract per-row function (C16 gives row independence
- and padding invariance, assumed here as `pad`). *)
+ and padding invariance; it is the hypothesis of C17_answer_is_own_partial).
+ The suffix _partial marks exactly this: all schedules of the model, not of the OS. *)
 From Coq Require Import ZArith List.
 From TV Require gen.Consts.
-From TV Require Import model.Server proofs.ServerProofs.
+From TV Require Import model.Server proofs.ServerProofs proofs.ServerProgress.
 Import ListNotations.
 Open Scope Z_scope.
 
@@ -53,6 +54,28 @@ Theorem C17_fifo_progress_partial : forall A frow evs1 evs2 k r,
   (completed (run A frow evs1) + k + 1 <= completed (run A frow (evs1 ++ evs2)))%nat ->
   nth_error (map fst (answers (run A frow (evs1 ++ evs2)))) (length (answers (run A frow evs1)) + k) = Some r.
 Proof. exact fifo_progress. Qed.
+
+(* the same with the tight count: 2 + k / capacity completions suffice (capacity = MAX_QUEUE_DEPTH) ... *)
+Theorem C17_fifo_progress_tight_partial : forall A frow evs1 evs2 k r,
+  nth_error (pending (run A frow evs1)) k = Some r ->
+  (completed (run A frow evs1) + (2 + k / Z.to_nat cap) <= completed (run A frow (evs1 ++ evs2)))%nat ->
+  nth_error (map fst (answers (run A frow (evs1 ++ evs2)))) (length (answers (run A frow evs1)) + k) = Some r.
+Proof. exact fifo_progress_tight. Qed.
+
+(* ... a request in the worker's batch is answered by the next completed model call ... *)
+Theorem C17_in_batch_next_completion_partial : forall A frow evs1 evs2 k r,
+  nth_error (batch_of (run A frow evs1)) k = Some r ->
+  (completed (run A frow evs1) + 1 <= completed (run A frow (evs1 ++ evs2)))%nat ->
+  nth_error (map fst (answers (run A frow (evs1 ++ evs2)))) (length (answers (run A frow evs1)) + k) = Some r.
+Proof. exact in_batch_next_completion. Qed.
+
+(* ... and a queued request by the second *)
+Theorem C17_in_queue_second_completion_partial : forall A frow evs1 evs2 k r,
+  nth_error (queue (run A frow evs1)) k = Some r ->
+  (completed (run A frow evs1) + 2 <= completed (run A frow (evs1 ++ evs2)))%nat ->
+  nth_error (map fst (answers (run A frow (evs1 ++ evs2))))
+            (length (answers (run A frow evs1)) + (length (batch_of (run A frow evs1)) + k)) = Some r.
+Proof. exact in_queue_second_completion. Qed.
 
 (* batch formation: the model calls, concatenated in call order, are consecutive segments of the
    arrival order (followed by the batch being gathered, the queue and the blocked putters) *)
